@@ -35,6 +35,7 @@ type S1 struct {
 	ReachGo  map[*ssa.Function]bool // reachable from roots by Go calls only
 	ReachAll map[*ssa.Function]bool // + methods invoked reflectively by templates
 	Roots    []*ssa.Function
+	NFuncMap int             // functions registered in template.FuncMap literals
 	TmplEnt  []*ssa.Function // template-invoked entry methods
 }
 
@@ -177,13 +178,49 @@ func (s *S1) computeReach() {
 		}
 	}
 	// functions registered in the template FuncMap are also entries
-	if g := s.SSA[modPath+"/generator"]; g != nil {
-		for _, m := range g.Members {
-			if f, ok := m.(*ssa.Function); ok && s.Tmpl.FuncNames[f.Name()] {
-				ents = append(ents, f)
-			}
+	// (resolved from the template.FuncMap composite literals themselves: the Go
+	// name of a registered function is unrelated to the name templates call it by)
+	nFuncMap := 0
+	for _, path := range []string{modPath, modPath + "/generator", modPath + "/specification"} {
+		p := s.Pkgs[path]
+		if p == nil {
+			continue
+		}
+		for _, file := range p.Syntax {
+			ast.Inspect(file, func(n ast.Node) bool {
+				cl, ok := n.(*ast.CompositeLit)
+				if !ok {
+					return true
+				}
+				t := p.TypesInfo.TypeOf(cl)
+				nt, ok := t.(*types.Named)
+				if !ok || nt.Obj().Name() != "FuncMap" || nt.Obj().Pkg() == nil || !strings.HasSuffix(nt.Obj().Pkg().Path(), "/template") {
+					return true
+				}
+				for _, el := range cl.Elts {
+					kv, ok := el.(*ast.KeyValueExpr)
+					if !ok {
+						continue
+					}
+					ast.Inspect(kv.Value, func(m ast.Node) bool {
+						id, ok := m.(*ast.Ident)
+						if !ok {
+							return true
+						}
+						if fo, ok := p.TypesInfo.Uses[id].(*types.Func); ok {
+							if f := s.Prog.FuncValue(fo); f != nil {
+								ents = append(ents, f)
+								nFuncMap++
+							}
+						}
+						return true
+					})
+				}
+				return true
+			})
 		}
 	}
+	s.NFuncMap = nFuncMap
 	sort.Slice(ents, func(i, j int) bool { return ents[i].String() < ents[j].String() })
 	s.TmplEnt = ents
 	s.ReachAll = s.closure(append(append([]*ssa.Function{}, roots...), ents...))
